@@ -187,6 +187,78 @@ class Model:
             self.modules[modname] = mod
             self._index_module(mod)
         self._const_cache: dict[tuple[str, str], object] = {}
+        self._rehome_moved_definitions()
+
+    def _rehome_moved_definitions(self) -> None:
+        """A function, class or constant that a module of the PINNED tree now imports from a module the pinned tree
+        does not have (``from ._helpers import _split`` after the helper was moved out of api.py) is addressed under
+        the name it had: rules, known-function tables and terms keep speaking of ``curies.api._split``.  The
+        definition itself - and the module whose globals its body sees - stay where the source has them."""
+        import json as _json
+        from pathlib import Path as _P
+
+        here = _P(__file__).parent
+        try:
+            known = set(_json.loads((here / "known_signatures.json").read_text())) | set(_json.loads((here / "known_functions.json").read_text()))
+            consts_ = _json.loads((here / "known_constants.json").read_text())
+            pinned_mods = set(consts_)
+            known |= {f"{m_}.{n_}" for m_, ns_ in consts_.items() for n_ in ns_}
+        except Exception:  # noqa: BLE001
+            return
+        new_mods = {m for m in self.modules if m not in pinned_mods}
+        if not new_mods:
+            return
+        # prefer the importer under whose name the pinned tree knows the definition; otherwise the first importer
+        cands: dict = {}
+        for M in sorted(self.modules.values(), key=lambda m_: m_.name):
+            if M.name in new_mods:
+                continue
+            for name, target in M.imports.items():
+                head, _, last = target.rpartition(".")
+                if head in new_mods:
+                    cands.setdefault((head, last), []).append((M, name))
+        self.rehomed: dict = {}
+        for (head, last), users in cands.items():
+            N = self.modules[head]
+            pick = next(((M, n) for M, n in users if f"{M.name}.{n}" in known or any(k.startswith(f"{M.name}.{n}.") for k in known)), None)
+            if pick is None:
+                pick = next(((M, n) for M, n in users if M.name.endswith(".api")), users[0])
+            M, name = pick
+            q_new = f"{M.name}.{name}"
+            if last in N.functions and q_new not in self.functions:
+                fi = N.functions[last]
+                old_q = fi.qualname
+                self._rekey_function(fi, q_new)
+                M.functions[name] = fi
+                self.rehomed[old_q] = q_new
+            elif last in N.classes and q_new not in self.classes:
+                ci = N.classes[last]
+                old_q = ci.qualname
+                self.classes.pop(old_q, None)
+                ci.qualname = q_new
+                self.classes[q_new] = ci
+                M.classes[name] = ci
+                for m_ in list(ci.methods.values()):
+                    self._rekey_function(m_, f"{q_new}.{m_.name}")
+                self.rehomed[old_q] = q_new
+            elif last in N.constants and (name not in M.constants or M.constants[name] is N.constants[last]):
+                # the constant is looked up in the pinned module; what its expression refers to comes along
+                for k_, v_ in N.constants.items():
+                    M.constants.setdefault(k_, v_)
+                for k_, v_ in N.imports.items():
+                    M.imports.setdefault(k_, v_)
+                self.rehomed[f"{head}.{last}"] = q_new
+        # importers other than the chosen home (and the new module itself) resolve to the same objects; constants
+        # imported straight from the new module are redirected to the pinned home
+        self._const_home = {tuple(k.rsplit(".", 1)): tuple(v.rsplit(".", 1)) for k, v in self.rehomed.items()}
+
+    def _rekey_function(self, fi: "FunctionInfo", q_new: str) -> None:
+        old_q = fi.qualname
+        self.functions.pop(old_q, None)
+        fi.qualname = q_new
+        self.functions[q_new] = fi
+        for sub in list(getattr(fi, "nested", {}).values()):
+            self._rekey_function(sub, f"{q_new}.{sub.name}")
 
     # ------------------------------------------------------------------ indexing
     @staticmethod
@@ -376,6 +448,9 @@ class Model:
             node = mod.constants[name]
             if isinstance(node, ast.Name) and node.id in mod.functions and depth < 6:
                 return ("func", mod.functions[node.id])  # an alias of a function of the module
+            home = getattr(self, "_const_home", {}).get((mod.name, name))
+            if home is not None and home[0] in self.modules and home[1] in self.modules[home[0]].constants:
+                return ("const", self.modules[home[0]], home[1])  # moved to a new module: addressed where it was
             return ("const", mod, name)
         if name in mod.imports and depth < 6:
             return self.resolve_dotted(mod.imports[name], depth + 1)
